@@ -1,7 +1,7 @@
 //! C10: the dump on disk is always a complete, loadable snapshot.
 //! (1) crash points: a save that cannot even open its temporary file leaves the dump untouched
-//!     (reachable without a hook: BLOCKSAVE); failing the n-th write needs
-//!     patches/hook-rdb-failat.diff (op FAILAT, compiled only with --cfg ferrous_verif_rdb_failat).
+//!     (BLOCKSAVE); every write call of a save fails in turn through the hook
+//!     storage::rdb::verif (FAILSWEEP).
 //! (3) damaged input: every prefix and single-byte corruption of valid dumps (SWEEP) and crafted
 //!     files (PUTFILE + PROBE), loaded in-process under catch_unwind with the counting allocator.
 //! The runner and the op vocabulary are shared with C09 (c09.rs, coq/Model/RunRdb.v).
@@ -118,15 +118,15 @@ pub fn gen(seed: u64, n: usize, tier: &str) -> Vec<Case> {
         let ops = vec![opv("PUTFILE", vec![bv(&bytes)]), op_t("PROBE"), op_t("DUMP")];
         cases.push(Case { id: format!("crafted-{}", name), ops, outs: vec![] });
     }
-    // known classes
+    // regression cases of the repaired classes rdb-alloc (43b3590) and rdb-fieldcount-overflow (bcfe7be)
     {
         let hdr: &[u8] = b"REDIS0009";
         let b1 = cat(&[hdr, &[0], &[0x80, 0x10, 0, 0, 0], b"abc"]);
-        cases.push(Case { id: "class-rdb-alloc".into(), ops: vec![opv("PUTFILE", vec![bv(&b1)]), op_t("PROBE"), op_t("DUMP")], outs: vec![] });
+        cases.push(Case { id: "regress-rdb-alloc".into(), ops: vec![opv("PUTFILE", vec![bv(&b1)]), op_t("PROBE"), op_t("DUMP")], outs: vec![] });
         let b2 = cat(&[hdr, &[0xfe, 0, 1], &ws(b"s"), &wl(6), &ws(MARKER), &ws(b"1-1"), &ws(b"9223372036854775808"), &ws(b"f"), &ws(b"v"), &ws(b"x"), &[0xff, 0, 0, 0, 0, 0, 0, 0, 0]]);
-        cases.push(Case { id: "class-rdb-fieldcount-overflow".into(), ops: vec![opv("PUTFILE", vec![bv(&b2)]), op_t("PROBE"), op_t("DUMP")], outs: vec![] });
+        cases.push(Case { id: "regress-rdb-fieldcount-overflow".into(), ops: vec![opv("PUTFILE", vec![bv(&b2)]), op_t("PROBE"), op_t("DUMP")], outs: vec![] });
         let b3 = cat(&[hdr, &[0xfe, 0, 1], &ws(b"s"), &wl(6), &ws(MARKER), &ws(b"1-1"), &ws(b"18446744073709551615"), &ws(b"f"), &ws(b"v"), &ws(b"x"), &[0xff, 0, 0, 0, 0, 0, 0, 0, 0]]);
-        cases.push(Case { id: "class-rdb-fieldcount-overflow-b".into(), ops: vec![opv("PUTFILE", vec![bv(&b3)]), op_t("PROBE"), op_t("DUMP")], outs: vec![] });
+        cases.push(Case { id: "regress-rdb-fieldcount-overflow-b".into(), ops: vec![opv("PUTFILE", vec![bv(&b3)]), op_t("PROBE"), op_t("DUMP")], outs: vec![] });
     }
     // a save whose temporary file cannot be opened leaves the previous dump untouched; a later save works
     for v in 0..2 {
@@ -177,14 +177,14 @@ pub fn judge(c: &Case, outs: &[Vec<Tok>]) -> Vec<String> {
             b"PROBE" => {
                 let st = tok_int(&out[0]);
                 if st & 3 == 2 { fails.push(format!("FAIL case={} op={}{} the loader panicked on a damaged file", c.id, k, cls(""))); }
-                if st & 4 != 0 { fails.push(format!("FAIL case={} op={}{} the loader asked for an allocation far beyond the file length", c.id, k, cls("rdb-alloc"))); }
+                if st & 4 != 0 { fails.push(format!("FAIL case={} op={}{} the loader asked for an allocation far beyond the file length", c.id, k, cls(""))); }
             }
             b"SWEEP" => {
                 let n = tok_int(&out[0]) as usize;
                 let (mut panics, mut bigs) = (0, 0);
                 for v in 0..n { let st = tok_int(&out[1 + 2 * v]); if st & 3 == 2 { panics += 1; } if st & 4 != 0 { bigs += 1; } }
                 if panics > 0 { fails.push(format!("FAIL case={} op={}{} the loader panicked on {} of {} damaged variants", c.id, k, cls(""), panics, n)); }
-                if bigs > 0 { fails.push(format!("FAIL case={} op={}{} allocation far beyond the file length on {} of {} damaged variants", c.id, k, cls("rdb-alloc"), bigs, n)); }
+                if bigs > 0 { fails.push(format!("FAIL case={} op={}{} allocation far beyond the file length on {} of {} damaged variants", c.id, k, cls(""), bigs, n)); }
             }
             b"FAILSWEEP" => {
                 if out.len() == 4 && (out[1] != i(1) || out[2] != i(1) || out[3] != i(1)) {
